@@ -1,6 +1,612 @@
-//! C13 — not implemented yet.
-use crate::ctx::Ctx;
+//! C13 — tumbling windows partition event time; window grouping loses nothing.
+//!
+//! Requests
+//!   `TUMBLE <ts> <size> <off>`                      answer: `W <start> <end>` | `PANIC`
+//!   `WGROUP <op> <size> <off> <mode> <src> <rows>`  answer: `OK <rows>` | `PANIC`
+//!       op   : kbw  (unkeyed key_by_window)         rows in : `ts:val,…`            out: `start-end:val,…` (input order)
+//!              gbw  (group_by_window)               rows in : `ts:val,…`            out: `start-end:v.v.v,…` (groups and contents sorted)
+//!              kkbw (keyed key_by_window)           rows in : `key:ts:val,…`        out: `key@start-end:val,…` (input order)
+//!              gbkw (group_by_key_and_window)       rows in : `key:ts:val,…`        out: `key@start-end:v.v,…` (sorted)
+//!       mode : `seq` | `par:<threads>:<partitions>`
+//!       src  : how the timestamped collection is built (helpers/timestamped.rs): `d` from_vec of Timestamped,
+//!              `t` from_vec of (ts,val) + to_timestamped(), `a` from_vec of (ts,val) + attach_timestamps(|r| r.0)
+//!              (keyed ops: always `d`)
+//!       empty row list = `-`
+//!   `WCMP <s1> <e1> <s2> <e2>`                      answer: `<a==b T|F> <cmp LT|EQ|GT> <a==b → same hash T|F>`
+//! The real side runs the REAL `Window::tumble` / REAL pipelines (from_vec → helpers → collect_seq /
+//! collect_par) in this overflow-checking build under catch_unwind (panic ↔ model `none`).
+//! Oracles (independent of the model, i128 reference arithmetic):
+//!   TUMBLE: start ≤ ts < end, end − start = size, (start − off) ≡ 0 mod size; and the call must not panic
+//!           when a window with those properties is representable in u64 (size ≥ 1).
+//!   WGROUP: every row keeps its value and gets a window with the four properties; groups have distinct
+//!           keys, every group holds exactly the multiset of input values whose ts lies in the group's window
+//!           (and whose key is the group's key), counts add up to the input length; par result == seq result.
+
+use crate::ctx::{Ctx, guarded};
+use ironbeam::{Pipeline, Timestamped, Window, from_vec};
+use std::collections::BTreeMap;
+
+type Row = (u64, i64); // (ts, value)
+type KRow = (i64, u64, i64); // (key, ts, value)
+
+// ---------------------------------------------------------------- reference (oracle side, i128)
+
+/// the unique window `[s, s+size)` with `s ≤ ts < s+size`, `s ≡ off (mod size)`, if representable in u64
+fn ref_window(ts: u64, size: u64, off: u64) -> Option<(u64, u64)> {
+    if size == 0 {
+        return None;
+    }
+    let (t, z, o) = (ts as i128, size as i128, off as i128);
+    let s = t - (t - o).rem_euclid(z);
+    let e = s + z;
+    if s >= 0 && e <= u64::MAX as i128 { Some((s as u64, e as u64)) } else { None }
+}
+
+/// the four clauses of the property on one real window
+fn window_ok(w: (u64, u64), ts: u64, size: u64, off: u64) -> Result<(), &'static str> {
+    let (s, e) = w;
+    if !(s <= ts) { return Err("start>ts"); }
+    if !(ts < e) { return Err("ts>=end"); }
+    if e < s || e - s != size { return Err("length!=size"); }
+    if size == 0 || (s as i128 - off as i128).rem_euclid(size as i128) != 0 { return Err("start-not-aligned"); }
+    Ok(())
+}
+
+// ---------------------------------------------------------------- TUMBLE
+
+fn one_tumble(cx: &mut Ctx, ts: u64, size: u64, off: u64, tag: &str) {
+    let r = guarded(|| Window::tumble(ts, size, off));
+    let ans = match &r { Ok(w) => format!("W {} {}", w.start, w.end), Err(_) => "PANIC".to_string() };
+    let nt = size >= 1 && r.is_ok();
+    let i = cx.case(format!("TUMBLE {ts} {size} {off}"), ans, nt);
+    cx.count(&format!("tumble:{tag}:{}", if r.is_ok() { "window" } else { "panic" }));
+    if size >= 1 {
+        cx.count(if off == 0 { "tumble:off=0" } else if off < size { "tumble:off<size" } else { "tumble:off>=size" });
+        if ts < off { cx.count("tumble:ts<off"); }
+    } else {
+        cx.count("tumble:size=0");
+    }
+    match r {
+        Ok(w) => {
+            if let Err(why) = window_ok((w.start, w.end), ts, size, off) {
+                cx.oracle_fail(i, &format!("tumble-window-wrong:{why}"),
+                    format!("tumble({ts},{size},{off}) = [{},{}) violates {why}; reference {:?}", w.start, w.end, ref_window(ts, size, off)));
+            }
+        }
+        Err(msg) => {
+            if let Some((s, e)) = ref_window(ts, size, off) {
+                let sig = if ts < off { "tumble-panics-ts-below-offset" } else { "tumble-panics-though-window-representable" };
+                cx.oracle_fail(i, sig, format!("tumble({ts},{size},{off}) panicked ({msg}) although [{s},{e}) is the window"));
+            }
+        }
+    }
+}
+
+// ---------------------------------------------------------------- WCMP (Eq / Ord / Hash of Window)
+
+fn one_wcmp(cx: &mut Ctx, a: (u64, u64), b: (u64, u64)) {
+    use std::hash::{Hash, Hasher};
+    let r = guarded(|| {
+        let (wa, wb) = (Window { start: a.0, end: a.1 }, Window { start: b.0, end: b.1 });
+        let h = |w: &Window| { let mut s = std::collections::hash_map::DefaultHasher::new(); w.hash(&mut s); s.finish() };
+        (wa == wb, wa.cmp(&wb), wa.partial_cmp(&wb), h(&wa) == h(&wb), wb.cmp(&wa))
+    });
+    let (eq, c, pc, heq, rc) = match r { Ok(x) => x, Err(_) => { cx.case(format!("WCMP {} {} {} {}", a.0, a.1, b.0, b.1), "PANIC".into(), false); return; } };
+    let cs = match c { std::cmp::Ordering::Less => "LT", std::cmp::Ordering::Equal => "EQ", std::cmp::Ordering::Greater => "GT" };
+    let t = |x: bool| if x { "T" } else { "F" };
+    let i = cx.case(format!("WCMP {} {} {} {}", a.0, a.1, b.0, b.1), format!("{} {} {}", t(eq), cs, t(!eq || heq)), a != b);
+    cx.count(&format!("wcmp:{cs}"));
+    if eq != (a == b) { cx.oracle_fail(i, "window-eq-not-fieldwise", format!("{a:?} == {b:?} is {eq}")); }
+    if c != a.cmp(&b) || pc != Some(c) || rc != c.reverse() { cx.oracle_fail(i, "window-ord-not-lexicographic", format!("{a:?} cmp {b:?} = {c:?}, partial {pc:?}, reverse {rc:?}")); }
+    if eq && !heq { cx.oracle_fail(i, "window-hash-inconsistent-with-eq", format!("{a:?} == {b:?} but hashes differ")); }
+}
+
+// ---------------------------------------------------------------- WGROUP
+
+#[derive(Clone, Copy, PartialEq, Eq, Debug)]
+enum Mode { Seq, Par(usize, usize) }
+impl Mode {
+    fn enc(&self) -> String { match self { Mode::Seq => "seq".into(), Mode::Par(t, p) => format!("par:{t}:{p}") } }
+}
+
+fn enc_rows(rows: &[Row]) -> String {
+    if rows.is_empty() { "-".into() } else { rows.iter().map(|(t, v)| format!("{t}:{v}")).collect::<Vec<_>>().join(",") }
+}
+fn enc_krows(rows: &[KRow]) -> String {
+    if rows.is_empty() { "-".into() } else { rows.iter().map(|(k, t, v)| format!("{k}:{t}:{v}")).collect::<Vec<_>>().join(",") }
+}
+fn join_or_dash(v: Vec<String>) -> String { if v.is_empty() { "-".into() } else { v.join(",") } }
+fn dots(vs: &[i64]) -> String { vs.iter().map(|x| x.to_string()).collect::<Vec<_>>().join(".") }
+
+struct Pools { pools: BTreeMap<usize, rayon::ThreadPool> }
+impl Pools {
+    fn new() -> Self { Pools { pools: BTreeMap::new() } }
+    fn get(&mut self, t: usize) -> &rayon::ThreadPool {
+        self.pools.entry(t).or_insert_with(|| rayon::ThreadPoolBuilder::new().num_threads(t).build().expect("pool"))
+    }
+}
+
+/// run `f` sequentially or inside a pool of exactly `threads` workers (rayon's global pool can be
+/// sized only once per process, so `collect_par`'s own `threads` argument is honoured only the first time)
+fn in_mode<T: Send>(pools: &mut Pools, mode: Mode, f: impl FnOnce() -> T + Send) -> Result<T, String> {
+    match mode {
+        Mode::Seq => guarded(f),
+        Mode::Par(t, _) => { let pool = pools.get(t); guarded(|| pool.install(f)) }
+    }
+}
+
+type WRow = ((u64, u64), i64);
+type WGroup = ((u64, u64), Vec<i64>);
+type KWRow = ((i64, (u64, u64)), i64);
+type KWGroup = ((i64, (u64, u64)), Vec<i64>);
+
+/// how the `PCollection<Timestamped<_>>` is built: `d`irect `from_vec`, `t` = `(ts, v)` rows through
+/// `to_timestamped()`, `a` = `(ts, v)` rows through `attach_timestamps(|r| r.0)` (value stays the whole row)
+#[derive(Clone, Copy, PartialEq, Eq, Debug)]
+enum Src { D, T, A }
+impl Src { fn enc(&self) -> &'static str { match self { Src::D => "d", Src::T => "t", Src::A => "a" } } }
+
+macro_rules! collect_mode {
+    ($c:expr, $mode:expr) => {
+        match $mode { Mode::Seq => $c.collect_seq(), Mode::Par(t, n) => $c.collect_par(Some(t), Some(n)) }.expect("collect")
+    };
+}
+
+fn real_kbw(pools: &mut Pools, rows: &[Row], size: u64, off: u64, mode: Mode, src: Src) -> Result<Vec<WRow>, String> {
+    let rows = rows.to_vec();
+    in_mode(pools, mode, move || {
+        let p = Pipeline::default();
+        match src {
+            Src::D => {
+                let data: Vec<Timestamped<i64>> = rows.iter().map(|(t, v)| Timestamped::new(*t, *v)).collect();
+                collect_mode!(from_vec(&p, data).key_by_window(size, off), mode).into_iter().map(|(w, v)| ((w.start, w.end), v)).collect()
+            }
+            Src::T => collect_mode!(from_vec(&p, rows).to_timestamped().key_by_window(size, off), mode)
+                .into_iter().map(|(w, v)| ((w.start, w.end), v)).collect(),
+            Src::A => collect_mode!(from_vec(&p, rows).attach_timestamps(|r: &Row| r.0).key_by_window(size, off), mode)
+                .into_iter().map(|(w, v)| ((w.start, w.end), v.1)).collect(),
+        }
+    })
+}
+fn real_gbw(pools: &mut Pools, rows: &[Row], size: u64, off: u64, mode: Mode, src: Src) -> Result<Vec<WGroup>, String> {
+    let rows = rows.to_vec();
+    in_mode(pools, mode, move || {
+        let p = Pipeline::default();
+        match src {
+            Src::D => {
+                let data: Vec<Timestamped<i64>> = rows.iter().map(|(t, v)| Timestamped::new(*t, *v)).collect();
+                collect_mode!(from_vec(&p, data).group_by_window(size, off), mode).into_iter().map(|(w, vs)| ((w.start, w.end), vs)).collect()
+            }
+            Src::T => collect_mode!(from_vec(&p, rows).to_timestamped().group_by_window(size, off), mode)
+                .into_iter().map(|(w, vs)| ((w.start, w.end), vs)).collect(),
+            Src::A => collect_mode!(from_vec(&p, rows).attach_timestamps(|r: &Row| r.0).group_by_window(size, off), mode)
+                .into_iter().map(|(w, vs)| ((w.start, w.end), vs.into_iter().map(|r| r.1).collect())).collect(),
+        }
+    })
+}
+fn real_kkbw(pools: &mut Pools, rows: &[KRow], size: u64, off: u64, mode: Mode) -> Result<Vec<KWRow>, String> {
+    let data: Vec<(i64, Timestamped<i64>)> = rows.iter().map(|(k, t, v)| (*k, Timestamped::new(*t, *v))).collect();
+    in_mode(pools, mode, move || {
+        let p = Pipeline::default();
+        let c = from_vec(&p, data).key_by_window(size, off);
+        let out = match mode { Mode::Seq => c.collect_seq(), Mode::Par(t, n) => c.collect_par(Some(t), Some(n)) };
+        out.expect("collect").into_iter().map(|((k, w), v)| ((k, (w.start, w.end)), v)).collect()
+    })
+}
+fn real_gbkw(pools: &mut Pools, rows: &[KRow], size: u64, off: u64, mode: Mode) -> Result<Vec<KWGroup>, String> {
+    let data: Vec<(i64, Timestamped<i64>)> = rows.iter().map(|(k, t, v)| (*k, Timestamped::new(*t, *v))).collect();
+    in_mode(pools, mode, move || {
+        let p = Pipeline::default();
+        let c = from_vec(&p, data).group_by_key_and_window(size, off);
+        let out = match mode { Mode::Seq => c.collect_seq(), Mode::Par(t, n) => c.collect_par(Some(t), Some(n)) };
+        out.expect("collect").into_iter().map(|((k, w), vs)| ((k, (w.start, w.end)), vs)).collect()
+    })
+}
+
+fn all_representable(ts: impl Iterator<Item = u64>, size: u64, off: u64) -> bool {
+    let mut it = ts;
+    it.all(|t| ref_window(t, size, off).is_some())
+}
+
+fn sorted(mut v: Vec<i64>) -> Vec<i64> { v.sort(); v }
+
+/// unkeyed: key_by_window + group_by_window in `mode`; returns the canonical grouped answer
+fn one_unkeyed(cx: &mut Ctx, pools: &mut Pools, rows: &[Row], size: u64, off: u64, mode: Mode, src: Src, seq_ref: Option<&str>) -> String {
+    let repr = all_representable(rows.iter().map(|r| r.0), size, off);
+    // ---- key_by_window
+    let r = real_kbw(pools, rows, size, off, mode, src);
+    let ans = match &r {
+        Ok(out) => format!("OK {}", join_or_dash(out.iter().map(|((s, e), v)| format!("{s}-{e}:{v}")).collect())),
+        Err(_) => "PANIC".into(),
+    };
+    let i = cx.case(format!("WGROUP kbw {size} {off} {} {} {}", mode.enc(), src.enc(), enc_rows(rows)), ans, rows.len() >= 2 && r.is_ok());
+    cx.count(if r.is_ok() { "wgroup:kbw:ok" } else { "wgroup:kbw:panic" });
+    match &r {
+        Ok(out) => {
+            if out.len() != rows.len() {
+                cx.oracle_fail(i, "kbw-row-count", format!("{} rows in, {} out", rows.len(), out.len()));
+            } else {
+                for (j, ((w, v), (t, v0))) in out.iter().zip(rows.iter()).enumerate() {
+                    if v != v0 {
+                        cx.oracle_fail(i, "kbw-value-changed", format!("row {j}: value {v0} became {v}"));
+                        break;
+                    }
+                    if let Err(why) = window_ok(*w, *t, size, off) {
+                        cx.oracle_fail(i, &format!("kbw-window-wrong:{why}"), format!("row {j}: ts {t} got [{},{})", w.0, w.1));
+                        break;
+                    }
+                }
+            }
+        }
+        Err(m) => if repr && size >= 1 {
+            cx.oracle_fail(i, "kbw-panics-though-windows-representable", m.clone());
+        },
+    }
+    // ---- group_by_window
+    let r = real_gbw(pools, rows, size, off, mode, src);
+    cx.count(&format!("wgroup:src={}", src.enc()));
+    let ans = match &r {
+        Ok(out) => {
+            let mut g: Vec<WGroup> = out.iter().map(|(w, vs)| (*w, sorted(vs.clone()))).collect();
+            g.sort();
+            format!("OK {}", join_or_dash(g.iter().map(|((s, e), vs)| format!("{s}-{e}:{}", dots(vs))).collect()))
+        }
+        Err(_) => "PANIC".into(),
+    };
+    let i = cx.case(format!("WGROUP gbw {size} {off} {} {} {}", mode.enc(), src.enc(), enc_rows(rows)), ans.clone(), rows.len() >= 2 && r.is_ok());
+    cx.count(if r.is_ok() { "wgroup:gbw:ok" } else { "wgroup:gbw:panic" });
+    match &r {
+        Ok(out) => {
+            let mut seen = std::collections::BTreeSet::new();
+            let mut total = 0usize;
+            for (w, vs) in out {
+                total += vs.len();
+                if !seen.insert(*w) {
+                    cx.oracle_fail(i, "gbw-duplicate-group", format!("window [{},{}) appears twice", w.0, w.1));
+                    break;
+                }
+                if vs.is_empty() {
+                    cx.oracle_fail(i, "gbw-empty-group", format!("window [{},{}) has no element", w.0, w.1));
+                    break;
+                }
+                if w.1 < w.0 || w.1 - w.0 != size || size == 0 || (w.0 as i128 - off as i128).rem_euclid(size as i128) != 0 {
+                    cx.oracle_fail(i, "gbw-window-wrong", format!("group window [{},{}) is not offset+k*size long size", w.0, w.1));
+                    break;
+                }
+                let want = sorted(rows.iter().filter(|(t, _)| w.0 <= *t && *t < w.1).map(|x| x.1).collect());
+                if sorted(vs.clone()) != want {
+                    cx.oracle_fail(i, "gbw-group-content", format!("window [{},{}): got {:?}, elements with ts inside: {:?}", w.0, w.1, sorted(vs.clone()), want));
+                    break;
+                }
+            }
+            if total != rows.len() {
+                cx.oracle_fail(i, "gbw-lost-or-duplicated", format!("{} elements in, {} in groups", rows.len(), total));
+            }
+            if let Some(s) = seq_ref {
+                if s != ans {
+                    cx.oracle_fail(i, "gbw-par-differs-from-seq", format!("seq: {s}  par: {ans}"));
+                }
+            }
+        }
+        Err(m) => {
+            if repr && size >= 1 {
+                cx.oracle_fail(i, "gbw-panics-though-windows-representable", m.clone());
+            }
+            if let Some(s) = seq_ref {
+                if s != ans { cx.oracle_fail(i, "gbw-par-differs-from-seq", format!("seq: {s}  par: {ans}")); }
+            }
+        }
+    }
+    ans
+}
+
+fn one_keyed(cx: &mut Ctx, pools: &mut Pools, rows: &[KRow], size: u64, off: u64, mode: Mode, seq_ref: Option<&str>) -> String {
+    let repr = all_representable(rows.iter().map(|r| r.1), size, off);
+    // ---- keyed key_by_window
+    let r = real_kkbw(pools, rows, size, off, mode);
+    let ans = match &r {
+        Ok(out) => format!("OK {}", join_or_dash(out.iter().map(|((k, (s, e)), v)| format!("{k}@{s}-{e}:{v}")).collect())),
+        Err(_) => "PANIC".into(),
+    };
+    let i = cx.case(format!("WGROUP kkbw {size} {off} {} d {}", mode.enc(), enc_krows(rows)), ans, rows.len() >= 2 && r.is_ok());
+    cx.count(if r.is_ok() { "wgroup:kkbw:ok" } else { "wgroup:kkbw:panic" });
+    match &r {
+        Ok(out) => {
+            if out.len() != rows.len() {
+                cx.oracle_fail(i, "kkbw-row-count", format!("{} rows in, {} out", rows.len(), out.len()));
+            } else {
+                for (j, (((k, w), v), (k0, t, v0))) in out.iter().zip(rows.iter()).enumerate() {
+                    if v != v0 || k != k0 {
+                        cx.oracle_fail(i, "kkbw-key-or-value-changed", format!("row {j}: ({k0},{v0}) became ({k},{v})"));
+                        break;
+                    }
+                    if let Err(why) = window_ok(*w, *t, size, off) {
+                        cx.oracle_fail(i, &format!("kkbw-window-wrong:{why}"), format!("row {j}: ts {t} got [{},{})", w.0, w.1));
+                        break;
+                    }
+                }
+            }
+        }
+        Err(m) => if repr && size >= 1 {
+            cx.oracle_fail(i, "kkbw-panics-though-windows-representable", m.clone());
+        },
+    }
+    // ---- group_by_key_and_window
+    let r = real_gbkw(pools, rows, size, off, mode);
+    let ans = match &r {
+        Ok(out) => {
+            let mut g: Vec<KWGroup> = out.iter().map(|(kw, vs)| (*kw, sorted(vs.clone()))).collect();
+            g.sort();
+            format!("OK {}", join_or_dash(g.iter().map(|((k, (s, e)), vs)| format!("{k}@{s}-{e}:{}", dots(vs))).collect()))
+        }
+        Err(_) => "PANIC".into(),
+    };
+    let i = cx.case(format!("WGROUP gbkw {size} {off} {} d {}", mode.enc(), enc_krows(rows)), ans.clone(), rows.len() >= 2 && r.is_ok());
+    cx.count(if r.is_ok() { "wgroup:gbkw:ok" } else { "wgroup:gbkw:panic" });
+    match &r {
+        Ok(out) => {
+            let mut seen = std::collections::BTreeSet::new();
+            let mut total = 0usize;
+            for ((k, w), vs) in out {
+                total += vs.len();
+                if !seen.insert((*k, *w)) {
+                    cx.oracle_fail(i, "gbkw-duplicate-group", format!("key {k} window [{},{}) appears twice", w.0, w.1));
+                    break;
+                }
+                if vs.is_empty() {
+                    cx.oracle_fail(i, "gbkw-empty-group", format!("key {k} window [{},{}) has no element", w.0, w.1));
+                    break;
+                }
+                if w.1 < w.0 || w.1 - w.0 != size || size == 0 || (w.0 as i128 - off as i128).rem_euclid(size as i128) != 0 {
+                    cx.oracle_fail(i, "gbkw-window-wrong", format!("group window [{},{}) is not offset+k*size long size", w.0, w.1));
+                    break;
+                }
+                let want = sorted(rows.iter().filter(|(k0, t, _)| k0 == k && w.0 <= *t && *t < w.1).map(|x| x.2).collect());
+                if sorted(vs.clone()) != want {
+                    cx.oracle_fail(i, "gbkw-group-content", format!("key {k} window [{},{}): got {:?}, elements of that key with ts inside: {:?}", w.0, w.1, sorted(vs.clone()), want));
+                    break;
+                }
+            }
+            if total != rows.len() {
+                cx.oracle_fail(i, "gbkw-lost-or-duplicated", format!("{} elements in, {} in groups", rows.len(), total));
+            }
+            if let Some(s) = seq_ref {
+                if s != ans { cx.oracle_fail(i, "gbkw-par-differs-from-seq", format!("seq: {s}  par: {ans}")); }
+            }
+        }
+        Err(m) => {
+            if repr && size >= 1 {
+                cx.oracle_fail(i, "gbkw-panics-though-windows-representable", m.clone());
+            }
+            if let Some(s) = seq_ref {
+                if s != ans { cx.oracle_fail(i, "gbkw-par-differs-from-seq", format!("seq: {s}  par: {ans}")); }
+            }
+        }
+    }
+    ans
+}
+
+/// one input through seq and several (threads, partitions) pairs, unkeyed and keyed
+fn wgroup_all_modes(cx: &mut Ctx, pools: &mut Pools, krows: &[KRow], size: u64, off: u64, pars: &[(usize, usize)]) {
+    let rows: Vec<Row> = krows.iter().map(|(_, t, v)| (*t, *v)).collect();
+    // the way the timestamped collection is built is part of the case (drawn from the one PRNG)
+    let src = *cx.rng.pick(&[Src::D, Src::D, Src::T, Src::A]);
+    let s_un = one_unkeyed(cx, pools, &rows, size, off, Mode::Seq, src, None);
+    let s_k = one_keyed(cx, pools, krows, size, off, Mode::Seq, None);
+    for (t, p) in pars {
+        one_unkeyed(cx, pools, &rows, size, off, Mode::Par(*t, *p), src, Some(&s_un));
+        one_keyed(cx, pools, krows, size, off, Mode::Par(*t, *p), Some(&s_k));
+        cx.count(&format!("wgroup:partitions={}", if *p > krows.len() { ">len".to_string() } else if *p == krows.len() { "=len".to_string() } else { if *p >= 9 { "9+".to_string() } else { p.to_string() } }));
+        cx.count(&format!("wgroup:threads={t}"));
+    }
+    cx.count(&format!("wgroup:len={}", match krows.len() { 0 => "0", 1 => "1", 2..=4 => "2-4", 5..=16 => "5-16", _ => ">16" }));
+}
+
+fn all_seqs<T: Clone>(alpha: &[T], max_len: usize) -> Vec<Vec<T>> {
+    let mut out: Vec<Vec<T>> = vec![vec![]];
+    let mut frontier: Vec<Vec<T>> = vec![vec![]];
+    for _ in 0..max_len {
+        let mut next = vec![];
+        for s in &frontier {
+            for x in alpha {
+                let mut t = s.clone();
+                t.push(x.clone());
+                next.push(t);
+            }
+        }
+        out.extend(next.iter().cloned());
+        frontier = next;
+    }
+    out
+}
 
 pub fn run(cx: &mut Ctx) {
-    cx.notes.push("C13: harness not implemented".to_string());
+    let mut pools = Pools::new();
+    const MAX: u64 = u64::MAX;
+
+    // ---------------- (1) corpus: design witnesses / minimised past failures
+    for &(ts, size, off) in &[
+        (7u64, 10u64, 25u64), // DESIGN §8 #10: panicked at the pinned commit; [5,15) is the window
+        (3, 10, 5),           // no representable window ([-5,5)): stays a panic
+        (27, 10, 0), (27, 10, 5), (0, 1, 0), (0, 10, 10), (9, 10, 10), (10, 10, 10), (0, 7, 14),
+        (MAX, 1, 0),          // end would be 2^64
+        (MAX - 1, 1, 0), (MAX - 10, 10, 5), (MAX - 10, 10, 6), (MAX, MAX, 0), (MAX - 1, MAX, 0), (MAX - 1, MAX, MAX - 1),
+        (5, 0, 0), (5, 0, 3), // size 0
+        (100, 10, MAX), (MAX - 3, 10, MAX),
+    ] {
+        one_tumble(cx, ts, size, off, "corpus");
+    }
+    wgroup_all_modes(cx, &mut pools, &[(1, 7, 70), (1, 27, 71), (2, 12, 72), (1, 8, 73)], 10, 25, &[(2, 2), (2, 4)]);
+    wgroup_all_modes(cx, &mut pools, &[(1, 1_000, 1), (1, 9_000, 2), (2, 11_000, 3)], 10_000, 0, &[(2, 2)]);
+    wgroup_all_modes(cx, &mut pools, &[(1, 3, 1), (1, 30, 2)], 10, 5, &[(2, 2)]); // first row has no window → PANIC
+
+    // ---------------- (2) small-scope exhaustive
+    let (tmax, smax) = (cx.budget(40, 64) as u64, cx.budget(12, 16) as u64);
+    let mut n = 0u64;
+    for size in 1..=smax {
+        for off in 0..=tmax {
+            for ts in 0..=tmax {
+                one_tumble(cx, ts, size, off, "exh");
+                n += 1;
+            }
+        }
+    }
+    cx.exhaustive_blocks.push(format!("TUMBLE: all ts, off in 0..={tmax}, size in 1..={smax} ({n} triples)"));
+    // Window Eq/Ord/Hash: all pairs of windows over 4 field values
+    let vals = [0u64, 1, 10, MAX];
+    let mut n = 0u64;
+    for &s1 in &vals { for &e1 in &vals { for &s2 in &vals { for &e2 in &vals {
+        one_wcmp(cx, (s1, e1), (s2, e2));
+        n += 1;
+    } } } }
+    cx.exhaustive_blocks.push(format!("WCMP: all pairs of windows with start,end in {{0,1,10,2^64-1}} ({n} pairs)"));
+    // boundaries near 2^64: all (ts, size, off) with ts in MAX-2s-2..=MAX, size 1..=6, off in {0..=s+1, MAX-s-1..=MAX}
+    let mut n = 0u64;
+    for size in 0..=6u64 {
+        let mut offs: Vec<u64> = (0..=size + 1).collect();
+        offs.extend(MAX - size - 1..=MAX);
+        for &off in &offs {
+            for ts in MAX - 2 * size - 2..=MAX {
+                one_tumble(cx, ts, size, off, "exh-top");
+                n += 1;
+            }
+        }
+    }
+    cx.exhaustive_blocks.push(format!("TUMBLE: all ts in 2^64-2*size-3..2^64, size in 0..=6, off in 0..=size+1 and 2^64-size-2..2^64 ({n} triples)"));
+    // WGROUP: all keyed row sequences of length <= L over keys {0,1} × ts {3,7,12,17} (value = position tag),
+    // size 5/10, off in {0, 2, 7, 25}, seq + partitions 1..=L+1
+    let l = cx.budget(3, 4);
+    let alpha: Vec<(i64, u64)> = vec![(0, 3), (0, 7), (1, 7), (0, 12), (1, 17)];
+    let seqs = all_seqs(&alpha, l);
+    let pars: Vec<(usize, usize)> = (1..=l + 1).map(|p| (2usize, p)).collect();
+    let mut n = 0u64;
+    for s in &seqs {
+        let krows: Vec<KRow> = s.iter().enumerate().map(|(j, (k, t))| (*k, *t, (j as i64) % 2)).collect();
+        for &(size, off) in &[(5u64, 0u64), (5, 2), (10, 7), (5, 25)] {
+            wgroup_all_modes(cx, &mut pools, &krows, size, off, &pars);
+            n += 1;
+        }
+    }
+    cx.exhaustive_blocks.push(format!("WGROUP: all keyed event sequences of length <= {l} over 5 (key,ts) symbols x (size,off) in {{(5,0),(5,2),(10,7),(5,25)}} x seq + partitions 1..={} ({n} inputs, 4 ops each)", l + 1));
+
+    // ---------------- (3) random
+    let rounds = cx.budget(60_000, 1_500_000);
+    for _ in 0..rounds {
+        let (ts, size, off, tag) = gen_tumble(cx);
+        one_tumble(cx, ts, size, off, tag);
+    }
+    let rounds = cx.budget(2000, 40_000);
+    for _ in 0..rounds {
+        let a = (cx.rng.next_u64() >> cx.rng.below(64), cx.rng.next_u64() >> cx.rng.below(64));
+        let b = match cx.rng.below(4) { 0 => a, 1 => (a.0, cx.rng.next_u64() >> cx.rng.below(64)), 2 => (cx.rng.next_u64() >> cx.rng.below(64), a.1), _ => (a.1, a.0) };
+        one_wcmp(cx, a, b);
+    }
+    let rounds = cx.budget(1200, 20_000);
+    for _ in 0..rounds {
+        let (krows, size, off) = gen_events(cx);
+        let len = krows.len();
+        let mut cand = vec![1usize, 2, 3, len.saturating_sub(1).max(1), len.max(1), len + 1, 7, 64];
+        let np = cx.budget(2, 3);
+        let mut pars = vec![];
+        for _ in 0..np {
+            let j = cx.rng.below(cand.len());
+            let p = cand.remove(j);
+            let t = *cx.rng.pick(&[1usize, 2, 4, 8]);
+            pars.push((t, p));
+        }
+        wgroup_all_modes(cx, &mut pools, &krows, size, off, &pars);
+    }
+}
+
+fn gen_tumble(cx: &mut Ctx) -> (u64, u64, u64, &'static str) {
+    const MAX: u64 = u64::MAX;
+    let small = |cx: &mut Ctx| -> u64 {
+        match cx.rng.below(4) { 0 => 1 + cx.rng.below(16) as u64, 1 => 1 + cx.rng.below(100_000) as u64, 2 => 1 + (cx.rng.next_u64() >> 32), _ => 1 + cx.rng.next_u64() % 1000 }
+    };
+    match cx.rng.below(10) {
+        0 => (cx.rng.next_u64(), cx.rng.next_u64(), cx.rng.next_u64(), "rand64"),
+        1 => { // realistic: epoch millis, second/minute windows, small offsets
+            let size = *cx.rng.pick(&[1_000u64, 10_000, 60_000, 3_600_000, 86_400_000]);
+            let ts = 1_600_000_000_000 + cx.rng.next_u64() % 200_000_000_000;
+            let off = match cx.rng.below(3) { 0 => 0, 1 => cx.rng.next_u64() % size, _ => cx.rng.next_u64() % (4 * size) };
+            (ts, size, off, "epoch")
+        }
+        2 => { // ts on a window boundary ±1
+            let size = small(cx);
+            let off = cx.rng.next_u64() % (3 * size);
+            let k = cx.rng.next_u64() % 1_000_000;
+            let b = (off % size).wrapping_add(k.wrapping_mul(size));
+            let ts = match cx.rng.below(3) { 0 => b.wrapping_sub(1), 1 => b, _ => b.wrapping_add(1) };
+            (ts, size, off, "boundary")
+        }
+        3 => { // ts below the offset
+            let size = small(cx);
+            let off = cx.rng.next_u64() % (MAX / 2) + 1;
+            let ts = cx.rng.next_u64() % off;
+            (ts, size, off, "ts<off")
+        }
+        4 => { // ts below the offset, small numbers
+            let size = 1 + cx.rng.below(20) as u64;
+            let off = cx.rng.below(100) as u64;
+            let ts = cx.rng.below(100) as u64;
+            (ts, size, off, "small")
+        }
+        5 => { // ts near 2^64 - size
+            let size = small(cx);
+            let d = cx.rng.next_u64() % (2 * size + 3);
+            let ts = (MAX - size).wrapping_add(d).wrapping_sub(size / 2);
+            let off = match cx.rng.below(3) { 0 => 0, 1 => cx.rng.next_u64() % size, _ => cx.rng.next_u64() };
+            (ts, size, off, "near-max")
+        }
+        6 => { // huge sizes
+            let size = MAX - cx.rng.next_u64() % 1000;
+            (cx.rng.next_u64(), size, cx.rng.next_u64() % 2000, "huge-size")
+        }
+        7 => { // offset ≥ size, multiple of size and not
+            let size = small(cx);
+            let off = size.wrapping_mul(1 + cx.rng.next_u64() % 50).wrapping_add(if cx.rng.chance(1, 2) { 0 } else { cx.rng.next_u64() % size });
+            (cx.rng.next_u64() >> cx.rng.below(50), size, off, "off>=size")
+        }
+        8 => { // size 0 / 1
+            let size = cx.rng.below(2) as u64;
+            (cx.rng.next_u64() >> cx.rng.below(64), size, cx.rng.next_u64() >> cx.rng.below(64), "size01")
+        }
+        _ => { // mixed magnitudes
+            let a = cx.rng.next_u64() >> cx.rng.below(64);
+            let b = (cx.rng.next_u64() >> cx.rng.below(64)).max(1);
+            let c = cx.rng.next_u64() >> cx.rng.below(64);
+            (a, b, c, "mixed")
+        }
+    }
+}
+
+fn gen_events(cx: &mut Ctx) -> (Vec<KRow>, u64, u64) {
+    const MAX: u64 = u64::MAX;
+    let len = match cx.rng.below(8) { 0 => 0, 1 => 1, 2 => 2, 3 | 4 => 3 + cx.rng.below(8), _ => 8 + cx.rng.below(40) };
+    let size: u64 = match cx.rng.below(5) { 0 => 1, 1 => 1 + cx.rng.below(12) as u64, 2 => 10, 3 => 1_000 * (1 + cx.rng.below(60) as u64), _ => 1 + cx.rng.next_u64() % 1_000_000 };
+    let off: u64 = match cx.rng.below(5) { 0 => 0, 1 => cx.rng.next_u64() % size, 2 => size * (1 + cx.rng.below(4) as u64) + cx.rng.next_u64() % size, 3 => cx.rng.next_u64() % (20 * size), _ => size };
+    // base so that most event sets are fully representable; a minority has an event below off % size
+    // or close to 2^64 (those runs must panic, in every mode)
+    let (base, span) = match cx.rng.below(12) {
+        0 => (0u64, 3 * size),                       // may include ts < off % size
+        1 => (MAX - 4 * size, 4 * size),             // may include unrepresentable ends
+        2 => (off.saturating_sub(2 * size), 5 * size), // around the offset, ts < off
+        3 => (off % size, 6 * size),
+        _ => (off % size + size * (cx.rng.next_u64() % 1_000_000), size * (1 + cx.rng.below(6) as u64)),
+    };
+    let nkeys = 1 + cx.rng.below(4) as i64;
+    let skew = cx.rng.chance(1, 3);
+    let mut rows = Vec::with_capacity(len);
+    for j in 0..len {
+        let ts = match cx.rng.below(6) {
+            0 => base.saturating_add((cx.rng.next_u64() % (span / size + 1)).saturating_mul(size)), // on a boundary
+            1 => base.saturating_add((cx.rng.next_u64() % (span / size + 1)).saturating_mul(size)).saturating_sub(1),
+            _ => base.saturating_add(cx.rng.next_u64() % (span + 1)),
+        };
+        let key = if skew && cx.rng.chance(3, 4) { 0 } else { cx.rng.range(0, nkeys - 1) };
+        // values: few distinct (duplicates matter for "none lost or duplicated"), sometimes unique tags
+        let val = if cx.rng.chance(1, 2) { cx.rng.range(-2, 2) } else { j as i64 };
+        rows.push((key, ts, val));
+    }
+    (rows, size, off)
 }
